@@ -180,10 +180,13 @@ theorem C10_answer_never_held (st : St) (b : String) : (step st (.req b)) = (st,
 theorem C10_oracle_accepts_model (st : St) (r : Ref) (op : Op) (h : Inv st r) :
     (holdsStep r op ⟨(step st op).2, (step st op).1.q⟩).1 = true := by
   obtain ⟨hw, hi⟩ := C10_step_refines st r op h
-  simp only [holdsStep, Bool.and_eq_true, decide_eq_true_eq]
-  refine ⟨⟨hw, ?_⟩, ?_⟩
-  · rw [hi.1, mkQ_stz]
-  · rw [hi.1]; exact ids_mkQ _ _
+  have h1 : ((step st op).1.q.map (·.stz)) = (refStep r op).1.held := by rw [hi.1, mkQ_stz]
+  have h2 : idsIncreasing ((step st op).1.q.map (·.id)) = true := by rw [hi.1]; exact ids_mkQ _ _
+  cases op <;>
+    simp only [holdsStep, Bool.and_eq_true, Bool.or_eq_true, decide_eq_true_eq] <;>
+    first
+      | exact ⟨⟨hw, h1⟩, h2⟩
+      | exact ⟨⟨hw, Or.inl h1⟩, h2⟩
 
 -- non-vacuity: the design's witness history [sendRaw x, sendRaw y, ack 1] retransmits y only, then <r/>
 example : (run ⟨[], 0⟩ [.sendRaw "x", .sendRaw "y", .ack 1]).2 = [["x"], ["y"], ["y", rBytes]] := by decide
